@@ -153,7 +153,11 @@ def run_and_validate(ctx, scenarios, tag, bound=None, batch=12, module="Trace_Ra
                 s = byid[sid]
                 what = ("property predicate %s (spec/Rapid.tla, PropHolds) fails in the behaviour of the specification that "
                         "explains the trace of scenario %s (family %s)" % (flag, sid, s.get("meta", {}).get("family")))
-                kf = ctx.known_matching(lambda m: m.get("kind") == "flag" and m.get("flag") == flag)
+                sched = s.get("meta", {}).get("schedule")
+                fl = lambda m: flag == m.get("flag") or flag in (m.get("flags") or [])
+                # a finding recorded for this forced schedule first, then the ones recorded for the flag alone
+                kf = (ctx.known_matching(lambda m: m.get("kind") == "flag" and fl(m) and sched and m.get("schedule") == sched)
+                      or ctx.known_matching(lambda m: m.get("kind") == "flag" and fl(m) and "schedule" not in m))
                 summary.setdefault("flags", {}).setdefault(flag, []).append(sid)
                 if kf:
                     ctx.known_finding(kf, what)
